@@ -182,3 +182,29 @@ def r_owners_liveness(ctx):
     _check(ctx, [
         ('last-response table', R.lastResponseTime, ['init', 'handler', 'become_leader', 'mutation'], 'Anything else that refreshes it keeps a cut-off leader in office.'),
     ])
+
+
+def _chunk_buffer_attr(ctx):
+    """the attribute in which the handler collects the chunks of a long entry: assigned / extended from message['data']"""
+    P, R = ctx.P, ctx.R
+    h = R.handler
+    msg = R.handler_msg_param
+    buf = None
+    for n in ast.walk(h.node):
+        if isinstance(n, (ast.Assign, ast.AugAssign)):
+            v = U.deref1(P, h, n.value)
+            if isinstance(v, ast.Subscript) and isinstance(v.value, ast.Name) and v.value.id == msg and isinstance(v.slice, ast.Constant) and v.slice.value == 'data':
+                t = n.targets[0] if isinstance(n, ast.Assign) else n.target
+                buf = P.self_attr(t, h.self_name) or buf
+    return buf
+
+
+@rule('R-owners-chunk-buffer', 'the buffer in which the chunks of a long entry are collected is written only by the message handler')
+def r_owners_chunk_buffer(ctx):
+    buf = _chunk_buffer_attr(ctx)
+    if not buf:
+        raise AnalysisError('R-owners-chunk-buffer: chunk buffer attribute not found in the handler')
+    _check(ctx, [
+        ('chunk reassembly buffer', buf, ['init', 'handler'],
+         'A reset from elsewhere (a disconnect of any peer, a tick) in the middle of a transfer makes the next chunk raise or be appended to nothing.'),
+    ])
